@@ -95,6 +95,11 @@ pub struct UpScript {
     pub st_connect_delay: u32,
     /// Size of the in-memory pipe in each direction.
     pub st_buf: usize,
+    /// Stream only: the peer reads slowly (TCP back-pressure). Each entry
+    /// is (offset in the octet stream the peer receives on a connection,
+    /// pause in ms): having consumed `offset` octets the peer does not read
+    /// for `pause` ms (it keeps sending what is due). Sorted by offset.
+    pub st_read_stalls: Vec<(u32, u32)>,
 }
 
 /// One message of a scripted AXFR response stream.
@@ -109,6 +114,35 @@ pub struct XfrMsg {
     pub with_q: bool,
     pub split: u16,
     pub gap: u32,
+    /// Send an identical copy this many milliseconds later (0: in the same
+    /// write as the original).
+    pub dup: Option<u32>,
+}
+
+/// What the caller asks for and how the peer answers.
+#[derive(Clone, Copy, Debug, Default, PartialEq, Eq, Hash)]
+pub enum XfrForm {
+    /// AXFR request, AXFR response stream.
+    #[default]
+    Axfr,
+    /// IXFR request answered with a full zone (RFC 1995, section 4: SOA,
+    /// records, SOA).
+    IxfrFull,
+    /// IXFR request answered with the single SOA of an up-to-date zone.
+    IxfrUpToDate,
+    /// IXFR request answered with one difference sequence:
+    /// SOA(new) SOA(old) deletions SOA(new) additions SOA(new).
+    IxfrDiff,
+}
+
+impl XfrForm {
+    pub fn qtype(self) -> u16 {
+        if self == XfrForm::Axfr {
+            QTYPE_AXFR
+        } else {
+            QTYPE_IXFR
+        }
+    }
 }
 
 #[derive(Clone, Debug, Default, PartialEq, Eq, Hash)]
@@ -116,31 +150,83 @@ pub struct XfrScript {
     pub msgs: Vec<XfrMsg>,
     /// The peer stops before the final message (the one with the closing SOA).
     pub stall: bool,
+    pub form: XfrForm,
 }
 
 pub const QTYPE_AXFR: u16 = 252;
+pub const QTYPE_IXFR: u16 = 251;
 
-/// Octets of message `j` of `total` of an AXFR response stream.
-pub fn build_xfr(name: &Labels, k: usize, j: usize, total: usize, id: u16, eid: u32, with_q: bool, recs: u8) -> Vec<u8> {
+/// Serial of the zone the peer serves for transfer `k` / the serial an IXFR
+/// request says it has.
+pub fn xfr_serial_new(k: usize) -> u32 {
+    1000 + k as u32
+}
+pub fn xfr_serial_old(k: usize) -> u32 {
+    900 + k as u32
+}
+
+/// Octets of message `j` of `total` of the response stream of transfer `k`.
+#[allow(clippy::too_many_arguments)]
+pub fn build_xfr(name: &Labels, k: usize, j: usize, total: usize, id: u16, eid: u32, with_q: bool, recs: u8, form: XfrForm) -> Vec<u8> {
     let mut a = wire::Asm::new(id, 0x8400);
     if j == 0 || with_q {
-        a.question(name, QTYPE_AXFR, CLASS_IN);
+        a.question(name, form.qtype(), CLASS_IN);
     }
-    let mut soa = vec![0u8, 0u8];
-    soa.extend_from_slice(&(1000 + k as u32).to_be_bytes());
-    for v in [3600u32, 600, 86400, 60] {
-        soa.extend_from_slice(&v.to_be_bytes());
-    }
-    if j == 0 {
-        a.record(1, name, 6, CLASS_IN, 60, &soa);
-    }
-    for r in 0..recs {
-        let mut rd = eid.to_be_bytes();
-        rd[0] = r;
-        a.record(1, name, QTYPE_A, CLASS_IN, 60, &rd);
-    }
-    if j + 1 == total {
-        a.record(1, name, 6, CLASS_IN, 60, &soa);
+    let soa_rd = |serial: u32| {
+        let mut soa = vec![0u8, 0u8];
+        soa.extend_from_slice(&serial.to_be_bytes());
+        for v in [3600u32, 600, 86400, 60] {
+            soa.extend_from_slice(&v.to_be_bytes());
+        }
+        soa
+    };
+    let new = soa_rd(xfr_serial_new(k));
+    let old = soa_rd(xfr_serial_old(k));
+    let last = j + 1 == total;
+    let mut nth = 0u8;
+    let mut a_recs = |a: &mut wire::Asm, n: u8| {
+        for _ in 0..n {
+            let mut rd = eid.to_be_bytes();
+            rd[0] = nth;
+            nth = nth.wrapping_add(1);
+            a.record(1, name, QTYPE_A, CLASS_IN, 60, &rd);
+        }
+    };
+    match form {
+        XfrForm::Axfr | XfrForm::IxfrFull => {
+            if j == 0 {
+                a.record(1, name, 6, CLASS_IN, 60, &new);
+            }
+            // The client transport takes a first IXFR response message that
+            // holds nothing but one SOA for the complete "up to date" answer
+            // (documented in check_stream): a full zone in several messages
+            // has a second record in its first message.
+            let n = if form == XfrForm::IxfrFull && j == 0 && !last { recs.max(1) } else { recs };
+            a_recs(&mut a, n);
+            if last {
+                a.record(1, name, 6, CLASS_IN, 60, &new);
+            }
+        }
+        XfrForm::IxfrUpToDate => {
+            a.record(1, name, 6, CLASS_IN, 60, &new);
+        }
+        XfrForm::IxfrDiff => {
+            if j == 0 {
+                a.record(1, name, 6, CLASS_IN, 60, &new);
+                a.record(1, name, 6, CLASS_IN, 60, &old);
+            }
+            if j == 1 {
+                a.record(1, name, 6, CLASS_IN, 60, &new);
+            }
+            a_recs(&mut a, recs);
+            if total == 1 {
+                a.record(1, name, 6, CLASS_IN, 60, &new);
+                a_recs(&mut a, recs);
+            }
+            if last {
+                a.record(1, name, 6, CLASS_IN, 60, &new);
+            }
+        }
     }
     a.buf
 }
@@ -155,7 +241,8 @@ pub enum Leg {
 
 #[derive(Clone, Debug)]
 pub enum What {
-    Recv { req: Option<usize>, id: u16, attempt: u32 },
+    /// `bytes`: the message as the peer read it (one datagram / one frame).
+    Recv { req: Option<usize>, id: u16, attempt: u32, bytes: Vec<u8> },
     /// A message (or garbage) handed to the client side. For streams `done`
     /// is set when the last octet has been written.
     Emit { eid: u32, for_req: usize, attempt: u32, idx: usize, kind: Kind, bytes: Vec<u8>, done: Option<u64>, delivered: bool },
@@ -229,7 +316,7 @@ impl World {
     pub fn owner_of(&self, msg: &[u8]) -> Option<usize> {
         let w = wire::walk(msg)?;
         let q = w.questions.first()?;
-        if q.qtype == QTYPE_AXFR {
+        if q.qtype == QTYPE_AXFR || q.qtype == QTYPE_IXFR {
             return self.xfr_names.iter().position(|n| *n == q.name).map(|k| self.names.len() + k);
         }
         self.names.iter().position(|n| *n == q.name)
@@ -370,7 +457,7 @@ impl AsyncDgramSend for DgSock {
             }
             None => 0,
         };
-        w.log(self.up, Leg::Dg, self.sock, What::Recv { req, id, attempt });
+        w.log(self.up, Leg::Dg, self.sock, What::Recv { req, id, attempt, bytes: buf.to_vec() });
         if let Some(r) = req {
             let script: Vec<Emit> = w.ups[self.up].reqs.get(r).map(|s| s.attempt(attempt).to_vec()).unwrap_or_default();
             if !script.is_empty() {
@@ -469,7 +556,11 @@ impl Ord for Pending {
 
 /// Spawns the scripted peer for one stream connection.
 pub fn spawn_stream_peer(w: Arc<World>, up: usize, conn: usize, server: DuplexStream) {
-    let (mut rd, mut wr) = tokio::io::split(server);
+    let (rd, mut wr) = tokio::io::split(server);
+    let mut stalls: Vec<(u64, u32)> = w.ups[up].st_read_stalls.iter().map(|(o, ms)| (*o as u64, *ms)).collect();
+    stalls.sort();
+    stalls.reverse();
+    let mut rd = Paced { rd, consumed: 0, stalls };
     let (tx, mut rx) = mpsc::unbounded_channel::<Pending>();
     let (stop_tx, mut stop_rx) = mpsc::unbounded_channel::<()>();
 
@@ -498,7 +589,7 @@ pub fn spawn_stream_peer(w: Arc<World>, up: usize, conn: usize, server: DuplexSt
                 }
                 None => 0,
             };
-            w.log(up, Leg::St, conn, What::Recv { req, id, attempt });
+            w.log(up, Leg::St, conn, What::Recv { req, id, attempt, bytes: frame.clone() });
             if let Some(r) = req.filter(|r| *r >= w.names.len()) {
                 let k = r - w.names.len();
                 let sc = &w.xfr[k];
@@ -510,7 +601,7 @@ pub fn spawn_stream_peer(w: Arc<World>, up: usize, conn: usize, server: DuplexSt
                         break;
                     }
                     seq += 1;
-                    let _ = tx.send(Pending { due, seq, req: r, id, attempt, idx: j, emit: Emit { delay: 0, kind: Kind::Xfr(k as u8, j as u8), dup: None, split: m.split, gap: m.gap }, resend: None });
+                    let _ = tx.send(Pending { due, seq, req: r, id, attempt, idx: j, emit: Emit { delay: 0, kind: Kind::Xfr(k as u8, j as u8), dup: m.dup, split: m.split, gap: m.gap }, resend: None });
                 }
                 continue;
             }
@@ -597,7 +688,7 @@ pub fn spawn_stream_peer(w: Arc<World>, up: usize, conn: usize, server: DuplexSt
                 let bytes = if let Kind::Xfr(k, j) = kind {
                     let (k, j) = (k as usize, j as usize);
                     let m = &w.xfr[k].msgs[j];
-                    build_xfr(&w.xfr_names[k], k, j, w.xfr[k].msgs.len(), p.id, eid, m.with_q, m.recs)
+                    build_xfr(&w.xfr_names[k], k, j, w.xfr[k].msgs.len(), p.id, eid, m.with_q, m.recs, w.xfr[k].form)
                 } else {
                     build_reply(&w.names, p.req, p.id, &kind, eid, steal)
                 };
@@ -665,10 +756,47 @@ pub fn spawn_stream_peer(w: Arc<World>, up: usize, conn: usize, server: DuplexSt
     });
 }
 
-async fn read_frame(rd: &mut tokio::io::ReadHalf<DuplexStream>) -> Option<Vec<u8>> {
-    let len = rd.read_u16().await.ok()? as usize;
+/// The peer's reading side: reads the octet stream and pauses at the
+/// scripted offsets (while it pauses the pipe fills up and the client's
+/// writes are accepted only partially or not at all).
+struct Paced {
+    rd: tokio::io::ReadHalf<DuplexStream>,
+    consumed: u64,
+    /// (offset, pause ms), largest offset first.
+    stalls: Vec<(u64, u32)>,
+}
+
+impl Paced {
+    async fn read_exact(&mut self, buf: &mut [u8]) -> Option<()> {
+        let mut filled = 0;
+        while filled < buf.len() {
+            let mut want = buf.len() - filled;
+            while let Some(&(off, ms)) = self.stalls.last() {
+                if off <= self.consumed {
+                    self.stalls.pop();
+                    sleep(Duration::from_millis(ms as u64)).await;
+                } else {
+                    want = want.min((off - self.consumed) as usize);
+                    break;
+                }
+            }
+            let n = self.rd.read(&mut buf[filled..filled + want]).await.ok()?;
+            if n == 0 {
+                return None;
+            }
+            filled += n;
+            self.consumed += n as u64;
+        }
+        Some(())
+    }
+}
+
+async fn read_frame(rd: &mut Paced) -> Option<Vec<u8>> {
+    let mut l = [0u8; 2];
+    rd.read_exact(&mut l).await?;
+    let len = u16::from_be_bytes(l) as usize;
     let mut buf = vec![0u8; len];
-    rd.read_exact(&mut buf).await.ok()?;
+    rd.read_exact(&mut buf).await?;
     Some(buf)
 }
 
